@@ -112,12 +112,13 @@ def nfa_find_epsilon_path(N: NFA, R: Set[State], f: State) -> Optional[List[Stat
                 continue
             for q in Q1:
                 target = q
+                if target in visited:
+                    continue
                 backpointers[target] = src
                 if target == f:
                     return make_path(target)
-                if target not in visited:
-                    todo.add(target)
-                    visited.add(target)
+                todo.add(target)
+                visited.add(target)
     return None
 
 
